@@ -170,6 +170,7 @@ def handle (args : List String) (impl : List String) : String :=
     | some w, some t => if absQ (w.sum - t) ≤ pow2 (-24) * (1 + vmaxAbs w * w.length) then "ok" else s!"bad relation=unbiased sum={fmtRat w.sum}"
     | _, _ => "bad-op"
   -- two code paths of the library on the same input (C04, C05, C10): answers must agree
+  | ["crash", what, how] => s!"bad pair={what} the operation ended abnormally ({how})"
   | ["pair", what, e1, e2, s1, s2, scale] =>
     match parseQs? e1, parseQs? e2, parseQs? s1, parseQs? s2, parseQ? scale with
     | some e1, some e2, some s1, some s2, some sc0 =>
